@@ -282,6 +282,9 @@ impl TriMesh {
             }
         }
 
+        // Triangles of `self` lying in the splitting plane.
+        let mut coplanar_triangles = vec![];
+
         for idx in new_indices {
             let idx = [idx[0] as usize, idx[1] as usize, idx[2] as usize]; // Convert to usize.
             let colors = [colors[idx[0]], colors[idx[1]], colors[idx[2]]];
@@ -294,9 +297,22 @@ impl TriMesh {
                 assert!(colors[0] != 1 && colors[1] != 1 && colors[2] != 1);
                 indices_rhs.push([remap[0].1, remap[1].1, remap[2].1]);
             } else {
-                // The colors are all 0, so push into both trimeshes.
-                indices_lhs.push([remap[0].0, remap[1].0, remap[2].0]);
-                indices_rhs.push([remap[0].1, remap[1].1, remap[2].1]);
+                // The colors are all 0: the triangle lies in the splitting plane. It must end up
+                // in exactly one of the two trimeshes (otherwise its area is counted twice):
+                // the one it bounds, i.e., the one on the side opposite to its normal.
+                let tri = Triangle::new(
+                    new_vertices[idx[0]],
+                    new_vertices[idx[1]],
+                    new_vertices[idx[2]],
+                );
+
+                if tri.scaled_normal().dot(local_axis) >= 0.0 {
+                    indices_lhs.push([remap[0].0, remap[1].0, remap[2].0]);
+                } else {
+                    indices_rhs.push([remap[0].1, remap[1].1, remap[2].1]);
+                }
+
+                coplanar_triangles.push(tri);
             }
         }
 
@@ -319,7 +335,23 @@ impl TriMesh {
                     vertices_lhs[idx1[2] as usize],
                 );
 
-                if self.contains_local_point(&tri.center()) {
+                let center = tri.center();
+
+                // The mesh is already closed where one of its own triangles lies in the
+                // splitting plane: don't cap these triangles a second time.
+                let proj_center = triangulation.project(center);
+                let is_covered = coplanar_triangles.iter().any(|coplanar| {
+                    let a = triangulation.project(coplanar.a);
+                    let b = triangulation.project(coplanar.b);
+                    let c = triangulation.project(coplanar.c);
+                    let side = |p: spade::Point2<Real>, q: spade::Point2<Real>| {
+                        (q.x - p.x) * (proj_center.y - p.y) - (q.y - p.y) * (proj_center.x - p.x)
+                    };
+                    let (s1, s2, s3) = (side(a, b), side(b, c), side(c, a));
+                    !((s1 < 0.0 || s2 < 0.0 || s3 < 0.0) && (s1 > 0.0 || s2 > 0.0 || s3 > 0.0))
+                });
+
+                if !is_covered && self.contains_local_point(&center) {
                     indices_lhs.push(idx1);
 
                     idx2.swap(1, 2); // Flip orientation for the second half of the split.
